@@ -305,7 +305,7 @@ def chunk_total_rule(R):
     g = cfg_of(de)
     inner = CallGuard(["serde::de::Deserialize::deserialize", "*::deserialize"], ("Ok",), "the inner decode of the bytes is Ok")
     n, acc, rej = inner.edges(de)
-    oks = set(RetSink("Ok").blocks(de))
+    oks = set(RetSink("Ok", computed=True).blocks(de))
     rets = {b["id"] for b in de.blocks if b["term"]["k"] == "return"}
     from rules import final_edges
     ok = bool(acc) and bool(oks)
